@@ -19,8 +19,8 @@ def srv_cases_for(cfg):
         lens = [1, 2] if tier == 'quick' else [1, 2, 3, 5, 23]
         for ln in lens:
             cs.append({'CFG': cfg, 'MODE': 0, 'LEN': ln, 'K': 0, 'NP': 0})
-        cs.append({'CFG': cfg, 'MODE': 1, 'LEN': 0, 'K': 4 if tier == 'quick' else 6, 'NP': 0})
-        cs.append({'CFG': cfg, 'MODE': 2, 'LEN': 0, 'K': 0, 'NP': 3 if tier == 'quick' else 5})
+        cs.append({'CFG': cfg, 'MODE': 1, 'LEN': 0, 'K': 3 if tier == 'quick' else 5, 'NP': 0})
+        cs.append({'CFG': cfg, 'MODE': 2, 'LEN': 0, 'K': 0, 'NP': 2 if tier == 'quick' else 4})
         return cs
     return cases
 
@@ -42,17 +42,17 @@ PROPERTY = Property(
     [Harness('c11_srv_%d' % n, ATT_E10[n], 'harness/c11_srv.c', _filtered(srv_cases_for(n)), unwind=42, timeout=1200, object_bits=11, diff_iters=100,
              description='real server + link layer callback: Handle Value Confirmation with correct / wrong length from an arbitrary state; K symbolic steps of poll / confirmation / '
                          'wrong confirmation / request: no second indication PDU before a confirmation; liveness: NP polls with confirmations serve every subscribed pending request',
-             bounds='six characteristics, one connection; confirmation lengths 1, 2 (quick) / 1, 2, 3, 5, 23 (thorough); K = 4 / 6 steps; NP = 3 / 5 pending requests and polls')
+             bounds='six characteristics, one connection; confirmation lengths 1, 2 (quick) / 1, 2, 3, 5, 23 (thorough); K = 3 / 5 steps; NP = 2 / 4 pending requests and polls')
      for n in (0, 1, 2)],
     functions=['notification_queue::dequeue_indication_or_confirmation', 'notification_queue::indication_confirmed', 'notification_queue::queue_indication / queue_notification',
                'details::notification_queue_impl<Size,C> / <1,C> / notification_queue_impl_base', 'server::handle_value_confirmation', 'server::l2cap_input (opcode 0x1E)',
                'server::error_response', 'link_layer::queue_lcap_notification (notification, indication, confirmation)', 'server::l2cap_output', 'server::indicate< UUID >, server::notify< UUID >'],
     bounds='queue: six priority partitions up to 7 characteristics, all states; server: three declarations with six characteristics, arbitrary pending sets / round robin positions / outstanding index / '
-           'client configuration, 4-6 steps, 3-5 polls',
+           'client configuration, 3-5 steps, 2-4 polls',
     assumptions=['queue operations are called with index < number of characteristics (documented precondition)',
                  'representation invariant of the start states: round robin position < Size of its level; outstanding index is none or < total',
                  'liveness: "confirmations keep arriving" = the client confirms every indication PDU it receives, immediately or (queue level) one dequeue later',
-                 'server level liveness: at most NP requests are pending and NP polls are made'],
+                 'server level liveness: at most NP requests are pending and NP polls are made; which characteristics are subscribed is taken from server::configured_for_notifications / configured_for_indications< UUID > (the association with the CCCD handles is checked by C09 / C10)'],
     explanation='queue level: from every representable state with an outstanding indication 2*total dequeues return no indication but every pending notification exactly once, and no pending '
                 'indication is lost; with confirmations arriving every pending or newly accepted request is returned exactly once within 3*total dequeues and the queue ends empty. Server level: '
                 'a Handle Value Confirmation of length 1 is not answered and clears the outstanding indication through the real link layer callback, any other length yields Error Response '
